@@ -21,6 +21,7 @@ Driver for stream `fees` (C07). One op per line, one observation per line.
      attrs   := k attr^k   attr := HP | OR scriptOk requestOk gasForResponse | NVB h | CF hashid onchain | NA nkeys | OT typ
      pool    := dup conflictsAttrErr balance feeSum oracleErr full
   numbers decimal, flags 0|1, hash id 0 is the transaction itself.
+  pack <maxTx> <maxBlockSize> <maxBlockSysFee> <overhead> <n> (size sysfee)^n   -> <number picked>   (`Admission.applyPolicy`)
 -/
 import NeoModel.Base.Proto
 import NeoModel.Model.Fees
@@ -253,6 +254,16 @@ def step (s : Unit) (ws : List String) : Unit × String :=
       | .fail => (s, "fail")
     | _, _, _, _, _, _, _, _ => (s, "bad-op")
   | "admit" :: ts => (s, (runAdmit ts).getD "bad-op")
+  | "pack" :: ts =>
+    let r : Option String := do
+      let (maxTx, r) ← pNat ts
+      let (mbs, r) ← pNat r
+      let (mbf, r) ← pNat r
+      let (ov, r) ← pNat r
+      let (txs, r) ← pCounted pPair r
+      if !r.isEmpty then none
+      pure s!"{(applyPolicy ⟨maxTx, mbs, mbf, ov⟩ txs).length}"
+    (s, r.getD "bad-op")
   | _ => (s, "bad-op")
 
 def main : IO Unit := Proto.run () step
